@@ -21,6 +21,24 @@ fn m(spec: &'static str, c: &'static str) -> Source<&'static str, &'static str> 
   Source::Module { specifier: spec, maybe_headers: None, content: c }
 }
 fn main() {
+  if std::env::args().nth(1).as_deref() == Some("orphan") {
+    // 6. embedded module info: dependencies are followed, then the content load of the importer fails
+    let dep = "export const d = 1;\n";
+    let dep_sum = deno_graph::source::LoaderChecksum::r#gen(dep.as_bytes());
+    let meta = format!(
+      r#"{{"exports":{{".":"./mod.ts"}},"manifest":{{"/mod.ts":{{"size":1,"checksum":"sha256-{}"}},"/dep.ts":{{"size":1,"checksum":"sha256-{}"}}}},"moduleGraph2":{{"/mod.ts":{{"dependencies":[{{"type":"static","kind":"import","specifier":"./dep.ts","specifierRange":[[0,7],[0,17]]}}]}},"/dep.ts":{{}}}}}}"#,
+      "0000000000000000000000000000000000000000000000000000000000000000", dep_sum
+    );
+    let meta: &'static str = Box::leak(meta.into_boxed_str());
+    run("orphan-after-content-load-failure", vec![
+      ("file:///main.ts", m("file:///main.ts", "import 'jsr:@s/a@1';")),
+      ("https://jsr.io/@s/a/meta.json", m("https://jsr.io/@s/a/meta.json", r#"{"versions":{"1.0.0":{}}}"#)),
+      ("https://jsr.io/@s/a/1.0.0_meta.json", m("https://jsr.io/@s/a/1.0.0_meta.json", meta)),
+      ("https://jsr.io/@s/a/1.0.0/mod.ts", m("https://jsr.io/@s/a/1.0.0/mod.ts", "import './dep.ts';\n")),
+      ("https://jsr.io/@s/a/1.0.0/dep.ts", m("https://jsr.io/@s/a/1.0.0/dep.ts", dep)),
+    ], "file:///main.ts");
+    return;
+  }
   if std::env::args().nth(1).as_deref() == Some("loop") {
     // 5. two-hop redirect whose end imports the first hop
     run("two-hop-loop", vec![
